@@ -5273,8 +5273,13 @@ class FlowIRConcrete(object):
 
         platform_environments = self.get_environments(platform)
 
+        # VV: Layer the environments of the platform on top of the same-named environments of the default platform
+        # key by key (exactly like get_environment() does) instead of replacing them wholesale
         environments = default_environments
-        environments.update(platform_environments)
+        for env_name in platform_environments:
+            layered = dict(environments.get(env_name) or {})
+            layered.update(platform_environments[env_name] or {})
+            environments[env_name] = layered
 
         global_variables = FlowIR.fill_in(
             global_variables, context=global_variables, flowir=self._flowir, ignore_errors=True,
